@@ -44,6 +44,7 @@ type sessExp struct {
 	Pace, Cam, Bac, Aa, Ca string
 	Complete, Pa, Trusted  bool
 	ChipAuth               string
+	PhasesBefore, PhasesAfter, DgPhases []int
 }
 
 func (c sessCfg) String() string {
@@ -74,7 +75,7 @@ func parseSessRow(t []any) (sessCfg, sessOpt, sessExp) {
 	return sessCfg{core.Str(c["access"]), setInts(c["dgs"]), core.Str(c["aa"]), c["ca"].(bool), c["trusted"].(bool), core.Str(c["kind"])},
 		sessOpt{o["skipPace"].(bool), o["skipImages"].(bool), core.Str(o["pw"])},
 		sessExp{e["access"].(bool), setInts(e["obtained"]), core.Str(e["pace"]), core.Str(e["cam"]), core.Str(e["bac"]), core.Str(e["aa"]), core.Str(e["ca"]),
-			e["complete"].(bool), e["pa"].(bool), e["trusted"].(bool), core.Str(e["chipAuth"])}
+			e["complete"].(bool), e["pa"].(bool), e["trusted"].(bool), core.Str(e["chipAuth"]), core.Ints(e["phasesBefore"]), core.Ints(e["phasesAfter"]), setInts(e["dgPhases"])}
 }
 
 // sessVariety are the concrete dimensions the abstract configuration leaves open.
@@ -581,6 +582,32 @@ func C08(c *core.Ctx) {
 			if m[1] != m[2] {
 				c.Violation("C08:step-outcome:"+m[0], fmt.Sprintf("%s recorded %s, expected %s (%s)", m[0], m[1], m[2], name), rp)
 			}
+		}
+		// progress reports: the phase sequence Session.tla specifies, data groups in the order of the hash list
+		var wantPh []string
+		for _, ph := range ee.PhasesBefore {
+			wantPh = append(wantPh, fmt.Sprint(ph))
+		}
+		for _, n := range p.SODOrder {
+			for _, w := range ee.DgPhases {
+				if w == n {
+					wantPh = append(wantPh, fmt.Sprintf("8/%d", n))
+				}
+			}
+		}
+		for _, ph := range ee.PhasesAfter {
+			wantPh = append(wantPh, fmt.Sprint(ph))
+		}
+		var gotPh []string
+		for _, st := range o.phases {
+			if st.Phase == reader.STATUS_PHASE_READING_DATA_GROUP {
+				gotPh = append(gotPh, fmt.Sprintf("8/%d", st.DataGroup))
+			} else {
+				gotPh = append(gotPh, fmt.Sprint(int(st.Phase)))
+			}
+		}
+		if strings.Join(gotPh, " ") != strings.Join(wantPh, " ") {
+			c.Violation("C08:phases", fmt.Sprintf("progress phases reported %v, Session.tla specifies %v (%s)", gotPh, wantPh, name), rp)
 		}
 		if o.pa != ee.Pa {
 			c.Violation("C08:passive-authentication", fmt.Sprintf("passive authentication %v, issuer trusted %v (%s)", o.pa, cc.Trusted, name), rp)
